@@ -14,7 +14,7 @@ A guard that changes (`==` to `<=`, a dropped conjunct, another cursor), a write
 re-ordered, a status or cursor assigned another value, a re-queue that is dropped or names another
 transaction, a device answer classified differently: each changes the regenerated function and the theorem
 below for that function no longer checks.  Not seen (left to the correspondence stream): the values moved by
-the `plumbing` assignments, WHICH transaction `r.transactions.Get` looks up as `prevTransaction`, the code
+the `plumbing` assignments, the code
 below the calls (stores, `applyValues`' guards up to `conn.Set`, the device).
 -/
 import OnosVerif.Proofs.V3SkelCommit
@@ -87,6 +87,15 @@ theorem C20_skel_reconcileTransaction (i : Nat) (t : Tx) (c : Cfg) (pn : Bool) (
       else if retOk o then [.ret "result, nil" []]
       else [.ret "controller.Result{}, nil" []] :=
   skel_v3_dispatch i t c pn p o
+
+/-- regenerated: WHICH transaction every function waits for - the twin's `prevBusy…` tests look up
+    `Committed.Index` in the commit functions and `Applied.Index` in the apply functions, and so does
+    the source (the skeleton theorems above take the looked-up transaction as a parameter: this fact is
+    what says which one it is) -/
+theorem C20_fact_prev_lookups :
+    v3PrevLookups = [("commitChange", "configuration.Committed.Index"), ("applyChange", "configuration.Applied.Index"),
+      ("commitRollback", "configuration.Committed.Index"), ("applyRollback", "configuration.Applied.Index"),
+      ("applyRollback", "configuration.Applied.Index")] := by decide
 
 /-! Non-vacuity: states in which the hypotheses hold and the functions do something. -/
 
